@@ -79,6 +79,8 @@ def gen_plan(rng, tier, idx, opts):
                 n = 0                                   # a skip of nothing
             ops.append({"op": "skip", "n": n})
             pos += n
+        elif r < 0.315:
+            ops.append({"op": "scribble", "factor": rng.choice([2.0, 0.0, -1.0])})     # the caller scales/overwrites IN PLACE what it was handed last
         elif r < 0.33:
             ops.append({"op": "get"})
         elif r < 0.345:
@@ -112,6 +114,9 @@ def gen_plan(rng, tier, idx, opts):
                 n = max(1, min(n, nmax))
             ops.append({"op": "generate", "n": n})
             pos += (n or 1)
+    if Fd == 0.0 and rng.random() < 0.5:
+        # a static channel whose very first delivered sample (the constructor's) is edited in place by the caller
+        ops.insert(0, {"op": "scribble", "factor": rng.choice([2.0, 0.0, -1.0])})
     if not any(o["op"] == "generate" for o in ops):
         ops.append({"op": "generate", "n": min(3, nmax)})
     out = {"world": "jakes", "Fd": Fd, "Ts": Ts, "L": L, "shape": shape, "rs_seed": rng.randrange(1 << 31), "ops": ops}
@@ -198,6 +203,18 @@ def execute(plan):
                     if op["n"] >= 10 ** 6:
                         bump(res["probes"], "clock_jump_ge_1e6_samples")
                     bump(res["faults"], "clock-jump(skip)")
+                elif o == "scribble":
+                    arr_ = gen.get_samples()
+                    try:
+                        arr_ *= op["factor"]              # e.g. `h *= gain`: the array belongs to the caller now
+                        wrote = True
+                    except ValueError:
+                        wrote = False                     # handed out read-only: nothing can be changed, fine too
+                    if wrote:
+                        last = np.array(arr_, copy=True)
+                        held[:] = [hh for hh in held if hh[1] is not arr_]
+                        bump(res["probes"], "caller_wrote_into_the_delivered_samples")
+                    log.add("scribble", op["factor"], wrote)
                 elif o == "get":
                     s = gen.get_samples()
                     if last is not None and (np.shape(s) != np.shape(last) or not np.array_equal(s, last)):
